@@ -892,6 +892,11 @@ def shape_correspondence(rep, r, tier):
             # the implementation trims trailing singleton time / vector dims
             dims = got['shape'][2:] + [1] * (5 - len(got['shape']))
             ok = (dims == [S, T, V]) and (a['order'] == got['order'])
+        if isinstance(got, str) and a != 'invalid' and kind != 'gap' and \
+                complete_grid(tuples_of(series, [f for f in series['files'] if f['id'] in ids])) is True:
+            # files that tile a complete regular grid (decided independently of model and code; the model agrees): refused
+            rep.failure('a complete regular grid is rejected (%s): files added in the order %s' % (got, ids),
+                        {'tag': 'grid:reject-complete:shape', 'suite': 'grid', 'series': series, 'files': ids})
         if ok:
             co['agree'] += 1
         else:
